@@ -144,22 +144,14 @@ class MinSumLDPCDecoder(BeliefPropagationDecoder):
                 signs = torch.sign(vc_group_messages)
                 magnitudes = torch.abs(vc_group_messages)
 
+                # Each row of the gathered tensor already holds the extrinsic inputs of one edge
+                # (all messages into the check node except the one coming from the target variable)
+
                 # 2. Compute output signs (XOR of input signs)
-                sign_product = torch.prod(signs, dim=2, keepdim=True)
-                output_signs = sign_product * signs  # Extrinsic sign
+                output_signs = torch.prod(signs, dim=2)
 
                 # 3. Compute output magnitudes (min of input magnitudes)
-                # For each output, take min over all other inputs (extrinsic minimum)
-                min_magnitudes = torch.zeros_like(vc_group_messages)
-                for i in range(vc_group_messages.size(2)):
-                    # Create mask to exclude current position
-                    mask = torch.ones_like(vc_group_messages, dtype=torch.bool)
-                    mask[:, :, i] = False
-
-                    # Find minimum over other positions
-                    other_magnitudes = magnitudes.masked_select(mask).view(batch_size, deg * members, -1)
-                    min_vals, _ = torch.min(other_magnitudes, dim=2)
-                    min_magnitudes[:, :, i] = min_vals
+                min_magnitudes, _ = torch.min(magnitudes, dim=2)
 
                 # 4. Combine signs and magnitudes
                 v_messages = output_signs * min_magnitudes
